@@ -97,6 +97,9 @@ def correspondence(programs, langs, hook, tag="corr"):
         body.append("Definition %s : bmodel := %s." % (mname, g_model(resp["model"], names)))
         observed[pid] = {"model": resp["model"], "names": names, "text": text, "langs": {}}
         for lang, step in zip(langs, resp["steps"]):
+            if "error" in step:
+                observed[pid]["langs"][lang] = {"error": step["error"]}
+                continue
             if "panic" in step:
                 stats["panics"] += 1
                 observed[pid]["langs"][lang] = {"panic": step["panic"], "frames": step.get("frames")}
